@@ -292,12 +292,18 @@ impl Property for C11 {
                     _ => vec![partner, extra, partner],
                 };
                 mon.facet(&format!("non-binary-variable-in-term-of-{}-ids{}", new_term.len(), if new_term.contains(&partner) { "-with-a-binary-partner" } else { "" }));
+                // one case in four: a pure quadratic form (no linear part at all in the message)
+                let pure_quadratic = new_term.len() == 2 && rng.chance(1, 4);
+                if pure_quadratic {
+                    terms.retain(|(i, _)| i.len() == 2);
+                    mon.facet("non-binary-variable-in-a-quadratic-without-linear-part");
+                }
                 terms.push((new_term, *rng.pick(&[1.5, -2.0, 0.25])));
-                let as_quadratic = terms.iter().all(|(i, _)| i.len() <= 2) && rng.bool();
+                let as_quadratic = pure_quadratic || terms.iter().all(|(i, _)| i.len() <= 2) && rng.bool();
                 inst.objective = Some(if as_quadratic {
                     let constant: f64 = terms.iter().filter(|(i, _)| i.is_empty()).map(|(_, c)| *c).sum();
                     let lin = linear(terms.iter().filter(|(i, _)| i.len() == 1).map(|(i, c)| (i[0], *c)).collect(), constant);
-                    f_quadratic(quadratic(terms.iter().filter(|(i, _)| i.len() == 2).map(|(i, c)| (i[0], i[1], *c)).collect(), Some(lin)))
+                    f_quadratic(quadratic(terms.iter().filter(|(i, _)| i.len() == 2).map(|(i, c)| (i[0], i[1], *c)).collect(), if pure_quadratic { None } else { Some(lin) }))
                 } else {
                     f_polynomial(polynomial(terms))
                 });
